@@ -9,7 +9,13 @@
 //   during the init. Lifetime is ensured by not dropping until the Drop of the whole slot and that
 //   is checked by taking `&mut self`.
 
+#[cfg(sighook_verif)]
+use std::sync::atomic::Ordering;
+#[cfg(not(sighook_verif))]
 use std::sync::atomic::{AtomicPtr, Ordering};
+
+#[cfg(sighook_verif)]
+use signal_hook_registry::verif::shim::AtomicPtr;
 
 use libc::{c_int, siginfo_t};
 
@@ -19,6 +25,16 @@ use crate::low_level::channel::Channel;
 #[doc(hidden)]
 #[derive(Default, Debug)]
 pub struct Slot(AtomicPtr<Channel<siginfo_t>>);
+
+#[cfg(sighook_verif)]
+impl Slot {
+    /// Addresses of the (empty, full) queue words of the slot's channel, once initialised.
+    #[doc(hidden)]
+    pub fn verif_layout(&self) -> Option<[usize; 2]> {
+        let ptr = self.0.peek();
+        unsafe { ptr.as_ref() }.map(|c| c.verif_layout())
+    }
+}
 
 impl Drop for Slot {
     fn drop(&mut self) {
